@@ -342,9 +342,16 @@ theorem no_dangling_handle (topo : List (Nat × Nat × Nat)) (ops : List Op) :
     simp only [live, referenced, hal, Bool.true_and, Bool.and_eq_true] at hl
     exact hl.1
 
-/-! ## Stated, not proved (kept out of the theorems above; the correspondence check exercises them)
+/-! ## Stated here, PROVED in `Props/C15b.lean` (second building session)
 
--- FULL STATEMENT (unproved): noAbort_of_single_registration
+`listed_cells_registered`, `hook_count` (for both alias rules) and `layer_ok` are proved there exactly as
+stated below (or stronger).  `noAbort_of_single_registration` is FALSE as stated below — two `decide`
+counterexamples in `Props/C15b.lean` (`del_monitor` of a monitor another monitor of the same registration
+reads; a failing unique `add_monitor` that has already dropped the entry) — and is proved with the added
+hypothesis that the history contains no `del_monitor` and no failing unique `add_monitor`.  The original
+notes are kept for reference.
+
+-- STATEMENT (false as written; variant with `benign` proved in Props/C15b.lean): noAbort_of_single_registration
 --   ∀ topo ops, (no cell index is the target of two `registerCell` operations of `ops`, by whichever
 --   trainers / names) → NoAbort (init topo) ops
 --   (a syntactic sufficient condition for the hypothesis of `one_obs_per_training_step`: with one
@@ -352,13 +359,13 @@ theorem no_dangling_handle (topo : List (Nat × Nat × Nat)) (ops : List Op) :
 --   missing: the invariant "cellMons[cell][r] is the entry of the only registration of that cell" through
 --   registerCell / addMonitor / gc.  `second_trainer_breaks_layer_step` shows the condition is needed.)
 --
--- FULL STATEMENT (unproved): listed_cells_registered
+-- FULL STATEMENT (proved in Props/C15b.lean): listed_cells_registered
 --   ∀ topo ops t, alive t → ∀ g ∈ ((exec (init topo) ops).trainers t).groups,
 --     (lookup ((exec (init topo) ops).trainers t).cells g.1).isSome
 --   (every group of `named_monitors` belongs to a registered cell name; missing: the key-set lemmas for
 --   groupsInsert / groupsErase / filter under registerCell, delCell, addMonitor, delMonitor.)
 --
--- FULL STATEMENT (unproved): hook_count
+-- FULL STATEMENT (proved in Props/C15b.lean): hook_count
 --   ∀ topo ops, (exec (init topo) ops).post.length =
 --     Σ over alive training trainers t of (distinctMids (trainers t)).length
 --   (`no_dangling_handle` gives the two inclusions and uniqueness of ids; the cardinality argument — a
@@ -414,7 +421,7 @@ theorem cross_layer_alias_old_rule :
     ((exec (init topoXL true) (xlprog ++ [.layerStep 1])).mons 0).count = 0 ∧
     ((exec (init topoXL true) xlprog).mons 4).layer = 1 := by decide
 
--- FULL STATEMENT (unproved): layer_ok
+-- FULL STATEMENT (proved in Props/C15b.lean): layer_ok
 --   ∀ topo ops t n c g e, let s := exec (init topo true) ops;
 --     (s.trainers t).alive → lookup (s.trainers t).cells n = some c → lookup (s.trainers t).groups n = some g →
 --     e ∈ g → (s.mons e.2).layer = cellLayer s c
